@@ -192,6 +192,9 @@ def _md_fields(p):
 
 
 def impl(op, a):
+    if op in (1346, 1356):
+        from harness.props import c06h
+        return c06h.impl(op, a)
     if op == 1340:
         p, conf, params = _fin(a)
         return _fin_fields(p) + _conf_lists(conf) + _fn_fields(params)
@@ -725,6 +728,11 @@ def streams(tier, rng):
         if rng.random() < 0.3:
             cases.append((op + 1, [d]))
     yield "garbage", "verdict", cases
+    # 12. operation histories (harness/props/c06h.py, model Run/DirHist.v)
+    from harness.props import c06h
+    for st in c06h.streams_for(["fin", "md"], tier, rng, "b"):
+        yield st
+    yield "histories_limit_b", "exact", c06h.limit_cases("fin", rng, big) + c06h.limit_cases("md", rng, big)
 
 
 # ------------------------------------------------------------------ oracle
@@ -825,6 +833,9 @@ def _check_decoded_md(b, f, what):
 def oracle(case, ires, sres):
     """The property itself, evaluated on the implementation's observable behaviour."""
     op, a = case
+    if op in (1346, 1356):
+        from harness.props import c06h
+        return c06h.oracle(case, ires, sres)
     err = ires[0][0] == 1
     code = ires[0][1] if err else None
     # ---------------- Finished
